@@ -6,6 +6,7 @@ parameter domain, and the elementary facts every Sedov theorem uses (C02, C03, C
 import EPV.Gen.SedovShock
 import EPV.Lemmas.Sedov
 import EPV.Tactics
+import EPV.Lemmas.Bridge.SemiTac
 
 set_option linter.all false
 
@@ -53,31 +54,33 @@ theorem Admissible.gm1 {p : SedovShock.P} {k : ℕ} (A : Admissible p k) : p.gam
 theorem Admissible.gp1 {p : SedovShock.P} {k : ℕ} (A : Admissible p k) : p.gamma + 1 ≠ 0 := by
   have := A.gamma; linarith
 
-/-! the shock state for t > 0, each quantity in terms of the shock radius (tree level) -/
+/-! the shock state for t > 0, each quantity in terms of the shock radius (tree level).
+These are the *bridge lemmas* of SedovShock (GUIDE §8): the only place that sees the shape of the
+generated terms; `epv_semi_tree` compares up to ring normalisation at every level. -/
 
 theorem r2_eq (p : SedovShock.P) {t : ℝ} (ht : 0 < t) :
     SedovShock.r2 p t = (p.eblast / (p.alpha * p.rho0)) ^ (1 / (p.geometry + 2 - p.omega))
       * t ^ (2 / (p.geometry + 2 - p.omega)) := by
-  simp only [epv_tree, epv_cond, not_le.mpr ht, if_false, epv_leaf]
+  epv_semi_tree
 theorem rho1_eq (p : SedovShock.P) {t : ℝ} (ht : 0 < t) :
     SedovShock.rho1 p t = p.rho0 * SedovShock.r2 p t ^ (-p.omega) := by
-  simp only [epv_tree, epv_cond, not_le.mpr ht, if_false, epv_leaf]
+  epv_semi_tree
 theorem us_eq (p : SedovShock.P) {t : ℝ} (ht : 0 < t) :
     SedovShock.us p t = 2 / (p.geometry + 2 - p.omega) * SedovShock.r2 p t / t := by
-  simp only [epv_tree, epv_cond, not_le.mpr ht, if_false, epv_leaf]
+  epv_semi_tree
 theorem u2_eq (p : SedovShock.P) {t : ℝ} (ht : 0 < t) :
     SedovShock.u2 p t = 2 * SedovShock.us p t / (p.gamma + 1) := by
-  simp only [epv_tree, epv_cond, not_le.mpr ht, if_false, epv_leaf]
+  epv_semi_tree
 theorem rho2_eq (p : SedovShock.P) {t : ℝ} (ht : 0 < t) :
     SedovShock.rho2 p t = (p.gamma + 1) / (p.gamma - 1) * SedovShock.rho1 p t := by
-  simp only [epv_tree, epv_cond, not_le.mpr ht, if_false, epv_leaf]
+  epv_semi_tree
 theorem p2_eq (p : SedovShock.P) {t : ℝ} (ht : 0 < t) :
     SedovShock.p2 p t = 2 * SedovShock.rho1 p t * SedovShock.us p t ^ 2 / (p.gamma + 1) := by
-  simp only [epv_tree, epv_cond, not_le.mpr ht, if_false, epv_leaf]
+  epv_semi_tree
 theorem u1_eq (p : SedovShock.P) {t : ℝ} (ht : 0 < t) : SedovShock.u1 p t = 0 := by
-  simp only [epv_tree, epv_cond, not_le.mpr ht, if_false, epv_leaf]
+  epv_semi_tree
 theorem p1_eq (p : SedovShock.P) {t : ℝ} (ht : 0 < t) : SedovShock.p1 p t = 0 := by
-  simp only [epv_tree, epv_cond, not_le.mpr ht, if_false, epv_leaf]
+  epv_semi_tree
 
 theorem r2_pos {p : SedovShock.P} {k : ℕ} (A : Admissible p k) {t : ℝ} (ht : 0 < t) :
     0 < SedovShock.r2 p t := by
